@@ -188,6 +188,11 @@ def merge_into(a, b):
     return a
 
 
+def empty_summary():
+    """a shard summary with nothing in it (a shard that never reached its first checkpoint)"""
+    return {"counters": {}, "sets": {}, "samples": [], "violations": [], "inconclusive": [], "distinct": [], "extra": {}, "complete": False}
+
+
 def empty_merge():
     return {"counters": {}, "sets": {}, "samples": [], "violations": [], "inconclusive": [], "distinct": set(), "extra": {}}
 
